@@ -448,12 +448,27 @@ class LocalStorageBackend(StorageBackend):
         live table (#45).
         """
         full_prefix = self._resolve_path(prefix)
-        if not os.path.exists(full_prefix):
+        # Only a prefix that is definitely ABSENT lists as empty. Any other
+        # failure to look at it (EACCES on a directory that cannot be searched,
+        # EIO, a stale handle) must surface: os.path.exists() answers False for
+        # all of them, and "no files" is what the garbage collector takes as
+        # "no in-flight markers" - it then sweeps the files of live transactions.
+        try:
+            os.stat(full_prefix)
+        except (FileNotFoundError, NotADirectoryError):
             return []
+
+        def _listing_failed(err: OSError) -> None:
+            # os.walk swallows scandir errors by default and yields a SHORT
+            # listing. A directory that vanished meanwhile has nothing to list;
+            # everything else is a failed listing, not an empty one.
+            if isinstance(err, (FileNotFoundError, NotADirectoryError)):
+                return
+            raise err
 
         base_path = self._real_base_path()
         result = []
-        for root, _dirs, files in os.walk(full_prefix):
+        for root, _dirs, files in os.walk(full_prefix, onerror=_listing_failed):
             for file in files:
                 full_path = os.path.join(root, file)
                 # Return path relative to the canonical base_path
